@@ -61,6 +61,7 @@ type ChunkResult struct {
 	Reproduced    bool              `json:"reproduced,omitempty"`
 	ReplayRule    string            `json:"replayRule,omitempty"`
 	ReplayHash    string            `json:"replayHash,omitempty"`
+	RunHashes     []string          `json:"runHashes,omitempty"`
 	HarnessErrors []string          `json:"harnessErrors,omitempty"`
 }
 
@@ -258,11 +259,19 @@ func workerMain(t *testing.T) {
 	for i := spec.From; i < spec.To; i++ {
 		fmt.Fprintf(os.Stderr, "@%d\n", i)
 		sc := GenScenario(p, spec.Tier, spec.Seed, i)
-		out := execute(t, sc, i%detEvery == 0)
+		dump := os.Getenv("VERIF_DUMPLOGS")
+		out := execute(t, sc, i%detEvery == 0 || dump != "")
+		if dump != "" && out.W != nil {
+			os.MkdirAll(dump, 0o755)
+			os.WriteFile(fmt.Sprintf("%s/%d-%d.log", dump, os.Getpid(), i), []byte(strings.Join(out.W.Log.Lines, "\n")+"\n"), 0o644)
+		}
 		ri := &props.RunInfo{}
 		vs := p.Check(out, ri)
 		res.Runs++
 		batch.Write([]byte(out.LogHash))
+		if os.Getenv("VERIF_HASHMODE") != "" {
+			res.RunHashes = append(res.RunHashes, out.LogHash[:min(12, len(out.LogHash))])
+		}
 		res.VirtualNs += int64(out.Virtual)
 		res.RealNs += out.RealNs
 		if out.W != nil {
